@@ -615,7 +615,7 @@ def params (cfg):
   q = dict(nc=3, maxp=3, depth=5, dev=2, sinks=[0, 1, 2, 3, 4], goup=GOUP_VARIANTS,
            forms=(("str",), ("list",)))
   if cfg.quick: return [q]
-  deep = dict(q, maxp=4, depth=7)
+  deep = dict(q, maxp=4, depth=6)
   wide = dict(nc=4, maxp=5, depth=4, dev=3, sinks=[0, 1, 2, 3, 4, 5], goup=GOUP_VARIANTS,
               forms=(("str", "list"), ("list", "tuple", "set")))
   return [deep, wide]
